@@ -9,6 +9,5 @@ if [ ! -f model.ml ] || [ -n "$(find /verif/coq -name '*.vo' -newer model.ml 2>/
 fi
 cp /verif/driver/*.ml $B/
 if [ ! -f driver ] || [ model.ml -nt driver ] || [ -n "$(find /verif/driver -name '*.ml' -newer driver | head -1)" ]; then
-  ocamlfind ocamlopt -O3 -unboxed-types 2>/dev/null >/dev/null || true
-  ocamlfind ocamlopt -w -a -package zarith -linkpkg model.mli model.ml sx.ml ext.ml main.ml -o driver
+  ocamlfind ocamlopt -w -a -package zarith -linkpkg model.mli model.ml sx.ml main_common.ml astsx.ml ext.ml main.ml -o driver
 fi
